@@ -89,12 +89,23 @@ def cases(tier, seed):
         if i % 6 == 3:
             # "constant at the level of the first simulated year": nothing later may enter that level
             sp["co2"] = {"constant_auto": True}
+        ext_days = None
+        if i % 9 == 2:
+            # a CO2 record with gaps (projections: one value every five years) and an extension that
+            # brings the next record inside the window: the concentration of a year between two
+            # records is configuration, not something the end date may change
+            y0, y1 = S.d(sp["start"]).year, S.d(sp["end"]).year
+            k0 = int(gen.pick(rng, [y0, y1]))
+            a = float(gen.pick(rng, [330.0, 369.41, 420.0]))
+            sp["co2"] = {"series": [[y, round(a + 2.3 * (y - k0) + (9.0 if ((y - k0) // 5) % 2 else 0.0), 2)]
+                                    for y in range(k0 - 15, y1 + 26, 5)]}
+            ext_days = int(gen.pick(rng, [1830, 2200]))
         if i % 4 == 1:
             # one day of extreme evaporative demand in the first season: anything derived from
             # statistics of the whole record (which the end date and later weather change) shows
             gen.et0_spike(rng, sp)
         out.append({"spec": sp, "seed": int(rng.integers(0, 2 ** 31 - 1)), "force_kind": force_kind,
-                    "long_ext": bool(locals().get("long_ext"))})
+                    "long_ext": bool(locals().get("long_ext")), "ext_days": ext_days})
         long_ext = False
     return out
 
@@ -250,6 +261,9 @@ def run_case(case):
         ext = int(rng.choice([1, 2, 30, 200, 365, 800, 1095]))
         if case.get("long_ext"):
             ext = int(rng.choice([730, 1095, 1461]))      # several more seasons enter the window
+        if case.get("ext_days"):
+            ext = int(case["ext_days"])                    # the next sparse CO2 record enters the window
+            cov["extensions_past_a_co2_record"] += 1
         elif rng.random() < 0.4:
             # the new end date falls on / next to a planting date
             e0 = S.d(spec["end"])
